@@ -4,7 +4,7 @@
 export GOFLAGS=-mod=mod GOPROXY=off GOSUMDB=off GOTOOLCHAIN=local
 D="$1"; shift
 PROP="$(python3 -c "import json; print(json.load(open('$D/meta.json'))['property'][:3])")"
-DEMO="$(python3 -c "import json,re; print(re.split(r'\s\s+|\s\(', json.load(open('$D/meta.json')).get('demo_cmd','go test -run TestDemo -count=1 .'))[0])")"
+DEMO="$(python3 -c "import json,re; print(re.sub(r'^\s*cp [^&]*&&\s*','',re.split(r'\s\s+|\s\(', json.load(open('$D/meta.json')).get('demo_cmd','go test -run TestDemo -count=1 .'))[0]))")"
 PKGDIR=.; grep -q '^package graph' "$D/demo_test.go" && PKGDIR=internal/graph
 M="$(mktemp -d /tmp/trymut.XXXXXX)"; C="$(mktemp -d /tmp/trymut.XXXXXX)"
 rsync -a --exclude .git /repo/ "$M"/; rsync -a --exclude .git /repo/ "$C"/
